@@ -66,7 +66,7 @@ def run(ctx):
     r = ctx.tlc("biff", "MC_Rk", "MC_Rk.cfg", workers=2, timeout=300)
     if "STEP" in r["tags"]:
         ctx.replay("rk", r["tags"]["STEP"])
-    s = ctx.tlc("biff", "MC_Rk", "MC_Rk_sim.cfg", workers=4, simulate=ctx.pick(400, 20000), depth=250,
+    s = ctx.tlc("biff", "MC_Rk", "MC_Rk_sim.cfg", workers=4, simulate=ctx.pick(400, 5000), depth=250,
                 timeout=ctx.pick(120, 900), name="MC_Rk_sim")
     if "STEP" in s["tags"]:
         ctx.replay("rk", s["tags"]["STEP"])
